@@ -25,7 +25,7 @@ func TestMain(m *testing.M) { harness.Main(m, "C05") }
 
 // Operand is one JSON-serialisable operand of a case.
 type Operand struct {
-	K    string   `json:"k"`              // undef null bool num str obj alias scn undecl
+	K    string   `json:"k"`              // undef null bool num str obj alias scn undecl wrap arr
 	N    string   `json:"n,omitempty"`    // num: exact literal of the double (harness.NumLit)
 	S    []uint16 `json:"s,omitempty"`    // str: code units (well formed)
 	B    bool     `json:"b,omitempty"`    // bool
@@ -33,6 +33,10 @@ type Operand struct {
 	Ref  string   `json:"ref,omitempty"`  // "" inline; "getter": read through an accessor property that logs
 	O    *ObjSpec `json:"o,omitempty"`    // obj
 	Name string   `json:"name,omitempty"` // scn: scenery name
+
+	Lit   string    `json:"lit,omitempty"`   // num: source text of an integer literal that is not exactly a double (N is its rounded value)
+	Inner *Operand  `json:"inner,omitempty"` // wrap: new Boolean/Number/String(inner)
+	Elems []Operand `json:"elems,omitempty"` // arr: array literal of primitives
 }
 
 // MethodSpec is one programmable conversion method of an O object.
@@ -201,6 +205,9 @@ func (o Operand) literal() string {
 	case "str":
 		return harness.JSString16(o.S)
 	case "num":
+		if o.Lit != "" {
+			return "(" + o.Lit + ")"
+		}
 		x := parseLit(o.N)
 		switch {
 		case math.IsNaN(x) || math.IsInf(x, 0):
@@ -251,6 +258,17 @@ func (r *rendering) expr(o Operand, slot string, idx int, evlog bool) string {
 	case "obj":
 		r.pre = append(r.pre, fmt.Sprintf("%s=__mk(%q,%q,%s,%q,%s,%v);", nm, slot, o.O.V.Mode, retLit(o.O.V), o.O.T.Mode, retLit(o.O.T), o.O.Date))
 		e = nm
+	case "wrap":
+		ctor := map[string]string{"bool": "Boolean", "num": "Number", "str": "String"}[o.Inner.K]
+		r.pre = append(r.pre, fmt.Sprintf("%s=new %s(%s);%s.__id=%q;", nm, ctor, o.Inner.literal(), nm, slot))
+		e = nm
+	case "arr":
+		parts := make([]string, len(o.Elems))
+		for i, el := range o.Elems {
+			parts[i] = el.literal()
+		}
+		r.pre = append(r.pre, fmt.Sprintf("%s=[%s];%s.__id=%q;", nm, strings.Join(parts, ","), nm, slot))
+		e = nm
 	case "alias": // the same object as slot A
 		e = fmt.Sprintf("__A%d", idx)
 	case "scn":
@@ -299,7 +317,11 @@ func primModel(o Operand) m05.Value {
 	case "num":
 		x := parseLit(o.N)
 		v := m05.Num(x)
-		v.Wide = heldAsInt64(x, o.Via) && math.Abs(x) > 9007199254740992
+		if o.Lit != "" {
+			v.Held = o.Lit
+		} else if heldAsInt64(x, o.Via) && math.Abs(x) > 9007199254740992 {
+			v.Held = exactDigits(x)
+		}
 		return v
 	case "str":
 		return m05.Str(o.S)
@@ -323,6 +345,37 @@ func (env *modelEnv) model(o Operand, slot string) m05.Value {
 			env.a = ob
 		}
 		return m05.ObjV(ob)
+	case "wrap":
+		inner := primModel(*o.Inner)
+		text, _ := (&m05.Ctx{}).ToString(inner)
+		ob := &m05.Obj{ID: slot, Proto: scn["objProto"],
+			ValueOf:  m05.Method{Mode: m05.MPrim, Ret: inner, Quiet: true},
+			ToString: m05.Method{Mode: m05.MPrim, Ret: m05.Str(text), Quiet: true}}
+		if inner.K == m05.String { // 15.5.5: index and length properties
+			ob.Proto, ob.Indexed, ob.Props = scn["strProto"], true, indexProps(len(inner.S))
+		}
+		if slot == "A" {
+			env.a = ob
+		}
+		return m05.ObjV(ob)
+	case "arr":
+		var text []uint16
+		for i, el := range o.Elems {
+			if i > 0 {
+				text = append(text, ',')
+			}
+			if el.K != "undef" && el.K != "null" { // 15.4.4.5 join
+				t, _ := (&m05.Ctx{}).ToString(primModel(el))
+				text = append(text, t...)
+			}
+		}
+		ob := &m05.Obj{ID: slot, Proto: scn["arrProto"], Indexed: true, Props: indexProps(len(o.Elems)),
+			ValueOf:  m05.Method{Mode: m05.MInherit},
+			ToString: m05.Method{Mode: m05.MPrim, Ret: m05.Str(text), Quiet: true}}
+		if slot == "A" {
+			env.a = ob
+		}
+		return m05.ObjV(ob)
 	case "alias":
 		if env.a == nil {
 			panic("c05: alias without an object in slot A")
@@ -336,6 +389,14 @@ func (env *modelEnv) model(o Operand, slot string) m05.Value {
 		return m05.ObjV(ob)
 	}
 	return primModel(o)
+}
+
+func indexProps(n int) map[string]bool {
+	m := map[string]bool{"length": true}
+	for i := 0; i < n; i++ {
+		m[strconv.Itoa(i)] = true
+	}
+	return m
 }
 
 // evalLog appends what evaluating the operand expression (and GetValue on it) logs.
@@ -388,6 +449,8 @@ func buildScenery() map[string]*m05.Obj {
 	mk("arr", arrProto, false, "0", "1", "length").Indexed = true
 	mk("strobj", strProto, false, "0", "1", "length").Indexed = true
 	mk("re", reProto, false)
+	bound := mk("bound", fnProto, true, "length")
+	bound.Bound = f
 	mk("hostfn", fnProto, true)
 	mk("mathsin", fnProto, true, "length")
 	mk("math", objProto, false)
@@ -403,9 +466,10 @@ function __S_Hbad(){} __S_Hbad.prototype=5;
 var __S_plain={a:1,"0":1,"1e+21":1,"NaN":1,"undefined":1,"null":1,"true":1,"":1,"-1":1,"Infinity":1,"1.5":1,"[object Object]":1};
 var __S_child=Object.create(__S_plain); __S_child.own=1;
 var __S_bare=Object.create(null); __S_bare.x=1;
+var __S_bound=__S_F.bind(null);
 var __S_arr=[7,8], __S_strobj=new String("ab"), __S_re=/x/, __S_mathsin=Math.sin, __S_math=Math;
 var __S_objProto=Object.prototype, __S_fnProto=Function.prototype, __S_arrProto=Array.prototype, __S_strProto=String.prototype, __S_reProto=RegExp.prototype;
-(function(){var n=["F","G","Fproto","Gproto","f1","g1","Hbad","plain","child","bare","arr","strobj","re","mathsin","math","hostfn"];
+(function(){var n=["F","G","Fproto","Gproto","f1","g1","Hbad","plain","child","bare","arr","strobj","re","mathsin","math","hostfn","bound"];
  for(var i=0;i<n.length;i++){ Object.defineProperty(this["__S_"+n[i]],"__id",{value:n[i],enumerable:false}); }}).call(this);
 `
 
@@ -610,6 +674,7 @@ var hazardFinding = map[string]string{
 	m05.HazHexOverflow: "C05-TONUMBER-HEX-2P63",
 	m05.HazWideText:    "C05-INT64-UNROUNDED",
 	m05.HazIndexName:   "C05-IN-NONCANONICAL-INDEX",
+	m05.HazBoundInst:   "C05-BOUND-HASINSTANCE",
 	hazPlusOrder:       "C05-PLUS-GETVALUE-ORDER",
 }
 
